@@ -121,5 +121,65 @@ def populate (d : DegreeTargets α) (t : NodeTargets α) : List String → Optio
     | none => none
     | some d' => populate d' t gs
 
+/-! ### impairment profile selection and per-frequency lookup
+(`network.set_roadm_internal_paths`, `Roadm.set_roadm_paths`, `Roadm.get_impairment`) -/
+
+inductive PType | express | add | drop
+  deriving DecidableEq, Repr
+
+/-- one `frequency-range` item of an impairment profile: bounds (`None` lower bound = applies everywhere)
+and the value of the requested impairment (`None` = key absent and default `None`) -/
+structure Band (α : Type) where
+  lo : Option α
+  hi : α
+  value : Option α
+
+/-- an impairment profile of the equipment library -/
+structure Profile (α : Type) where
+  id : Nat
+  ptype : PType
+  bands : List (Band α)
+
+/-- first profile (library order) whose path type is `t` -/
+def firstOfType (profiles : List (Profile α)) (t : PType) : Option (Profile α) :=
+  profiles.find? (fun p => p.ptype = t)
+
+def profileById (profiles : List (Profile α)) (i : Nat) : Option (Profile α) :=
+  profiles.find? (fun p => p.id = i)
+
+/-- Which profile an internal connection of path type `t` uses. `user` = the id of the
+`per_degree_impairments` entry for this (from, to) pair, if any.
+* no entry: the first library profile of that path type, else `none` (= the node's global values, max loss 0);
+* entry: that profile; an unknown id is a NetworkTopologyError; on add/drop connections a profile of another
+  path type is a NetworkTopologyError (express connections are not checked by the code). -/
+def selectProfile (profiles : List (Profile α)) (user : Option Nat) (t : PType) : Except String (Option (Profile α)) :=
+  match user with
+  | none => .ok (firstOfType profiles t)
+  | some i =>
+    match profileById profiles i with
+    | none => .error "NetworkTopologyError"
+    | some p =>
+      if t ≠ PType.express ∧ p.ptype ≠ t then .error "NetworkTopologyError" else .ok (some p)
+
+/-- `get_impairment` for one carrier: the first band that contains the frequency and carries a value -/
+def lookupBands (bands : List (Band α)) (f : α) : Option α :=
+  match bands with
+  | [] => none
+  | b :: bs =>
+    let inside := match b.lo with
+      | none => true
+      | some lo => decide (lo ≤ f) && decide (f ≤ b.hi)
+    if inside then
+      match b.value with
+      | some v => some v
+      | none => lookupBands bs f
+    else lookupBands bs f
+
+/-- max loss of one carrier on a connection whose selected profile is `sel` (no profile: 0, the default) -/
+def maxlossOf (sel : Option (Profile α)) (f : α) : Option α :=
+  match sel with
+  | none => some ((0:Nat) : α)
+  | some p => lookupBands p.bands f
+
 end
 end Gnpy.Roadm
